@@ -807,7 +807,7 @@ class Interp:
                 return [(k, v) for k, v in ent] if fn.attr == 'items' else [k for k, _ in ent] if fn.attr == 'keys' else [v for _, v in ent]
         if isinstance(fn, ast.Name) and fn.id == 'filter' and len(args) == 2 and 'filter' not in env:
             return [x for x in self.seq(args[1]) if (self.truth(self.apply(args[0], [x])) if args[0] is not None else self.truth(x))]
-        if isinstance(fn, ast.Attribute) and getattr(h, 'native_regex', False):
+        if isinstance(fn, ast.Attribute) and (getattr(h, 'native_regex', False) or (isinstance(fn.value, ast.Name) and isinstance(env.get(fn.value.id), __import__('re').Match))):
             import re as _re
             b_ = None
             try:
@@ -994,6 +994,15 @@ class Interp:
                     return h.new_list(symstr.regex_split(rxv[2], rxv[3], args[0], args[1] if len(args) > 1 else kwargs.get('maxsplit', 0)))
                 except KeyError as k:
                     raise Raised(k.args[0], h.version, 0)
+            args = [a_.concrete() if isinstance(a_, SStr) and a_.concrete() is not None else a_ for a_ in args]
+            if args and isinstance(args[0], str) and all(isinstance(a_, (str, int)) for a_ in args) \
+                    and meth in ('finditer', 'findall', 'sub', 'match', 'search', 'fullmatch', 'split'):
+                # a regex constant of the module applied to a decided string: CPython's own regex engine decides (the pattern is data)
+                import re as _re
+                r_ = getattr(_re.compile(rxv[2], rxv[3]), meth)(*args, **kwargs)
+                if meth == 'finditer':
+                    r_ = list(r_)
+                return h.new_list(r_) if isinstance(r_, list) else r_
             raise symstr.Undecided('regex method %s.%s on %r' % (rxv[1], meth, args[:1]))
         if isinstance(f, tuple) and f and f[0] == 'symmethod':
             return self.sym_method(f[1], f[2], list(args), kwargs, None)
